@@ -18,7 +18,7 @@ from ..common import get_index, nf, check_equal, same_value, purity_obligations
 from ..field import split_terms, NotLinear
 from ..fftalg import INVERSE_SHIFT
 from ..interp import Interp, has_unknown, unknown_atoms
-from ..plf import Rat, Sym, Fn, find_atoms
+from ..plf import Rat, Sym, Fn, find_atoms, vkey as vk
 from ..report import AnalysisError
 from .c10 import propagator_forms, MOD, NPARAMS
 
@@ -121,17 +121,48 @@ def run(rep, tier, root=None):
             rep.violation("G4.zero-distance", f.fq + ": identity returned for z != 0",
                           "a path returns the input unchanged under condition %s" % list(c), f.where())
     prop_paths = [(c, v) for c, v in prop_paths if not (isinstance(v, Rat) and v.single_atom() == field)]
-    if len(prop_paths) != 1:
-        rep.unknown("G1.unit-magnification", f.fq, "expected exactly one propagating path, found %d" % len(prop_paths), f.where())
-    else:
-        v = prop_paths[0][1]
+    # branch decisions of every path (a special-cased unit-magnification path is legitimate only under outputSpacing == inputSpacing)
+    from ..interp import Interp as _I
+    I_as = _I(ix, square=True)
+    cnf_of = {tuple(c_): n_ for c_, n_, v_ in I_as.paths(f, I_as.symbolic_args(f, {p[0]: ("array", "field", "complex")}))}
+    d1s, d2s = Sym(p[2]), Sym(p[3])
+
+    def spacing_guards(c):
+        out = []
+        for val, truth in cnf_of.get(tuple(c), ()):
+            if isinstance(val, Rat) and any(a in (d1s, d2s) for a in val.atoms()):
+                a = val.single_atom()
+                is_eq = isinstance(a, Fn) and a.name == "cmp" and a.args[0] in ("==", "!=") and \
+                    {vk(a.args[1]), vk(a.args[2])} == {vk(d1), vk(d2)}
+                out.append((val, truth, is_eq and ((a.args[0] == "==") == truth)))
+        return out
+    unit_path = None
+    if not prop_paths:
+        rep.unknown("G1.unit-magnification", f.fq, "no propagating path", f.where())
+    for c, v in prop_paths:
+        guards = spacing_guards(c)
+        tagp = f.fq + ("[%s]" % "; ".join(c) if len(prop_paths) > 1 else "")
         if has_unknown(v):
-            rep.unknown("G5.fresnel-integral", f.fq, "unrecognised constructs %s" % [repr(a)[:50] for a in unknown_atoms(v)][:3], f.where())
+            rep.unknown("G5.fresnel-integral", tagp, "unrecognised constructs %s" % [repr(a)[:50] for a in unknown_atoms(v)][:3], f.where())
+            continue
+        want_full = oracle("angular_spectrum", [U, wvl, d1, d2, z])
+        if any(eqt for val, truth, eqt in guards):
+            # taken only when the two spacings are equal: compared with the formula at outputSpacing = inputSpacing
+            sub = lambda x: x.subst(lambda a: d1 if a == d2s else None)
+            check_equal(rep, "G5.fresnel-integral", tagp + " == Schmidt angular-spectrum formula at outputSpacing == inputSpacing", sub(v), sub(want_full),
+                        f.where(), what="angularSpectrum")
+            unit_path = v
         else:
-            check_equal(rep, "G5.fresnel-integral", f.fq + " == Schmidt angular-spectrum formula", v,
-                        oracle("angular_spectrum", [U, wvl, d1, d2, z]), f.where(), what="angularSpectrum")
+            pos = [nf(val, 60) for val, truth, eqt in guards if truth]
+            check_equal(rep, "G5.fresnel-integral", tagp + " == Schmidt angular-spectrum formula" +
+                        (" (taken whenever %s, which does not imply equal spacings)" % " and ".join(pos) if pos else ""), v, want_full,
+                        f.where(), what="angularSpectrum")
+            if unit_path is None and (pos or len(prop_paths) == 1):
+                unit_path = v
+    if unit_path is not None:
+        v = unit_path
+        if True:
             # G1/G2: substitute outputSpacing := inputSpacing
-            d2s = Sym(p[3])
             vu = v.subst(lambda a: d1 if a == d2s else None)
             want = oracle("unit_transfer", [U, wvl, d1, z])
             check_equal(rep, "G1.unit-magnification", f.fq + "[outputSpacing := inputSpacing] == ift2(H * ft2(U))", vu, want,
